@@ -120,11 +120,13 @@ type hostile struct{ class, text string }
 
 var hostilesQuick = []hostile{
 	{"block-close", "x */ func InjectedA() {} /* y"},
+	// the same inside a struct body (comments on fields), where a declaration would be a syntax error (= an accepted generation failure)
+	{"block-close-field", "x */ InjectedF int /* y"},
 	{"backtick-stmt", "first part`; _ = `second part"},
 	{"mixed-crlf", "first line\r\nsecond line\nInjected string"},
-	{"raw-close-call", "x`); _ = len(`y"},
 }
 var hostilesMore = []hostile{
+	{"raw-close-call", "x`); _ = len(`y"},
 	{"newline-code", "x\nfunc InjectedB() {}\n// y"},
 	{"quote", "x\" + InjectedC + \"y"},
 	{"block-close-regex", "x*/ func InjectedP() {} /*"},
@@ -318,6 +320,66 @@ func allPositions(spec []byte, catalogue []position) []position {
 	return out
 }
 
+// sparseOf: the document without optional descriptive text
+func sparseOf(spec []byte) []byte {
+	var doc interface{}
+	_ = json.Unmarshal(spec, &doc)
+	var walk func(v interface{}, path []string)
+	walk = func(v interface{}, path []string) {
+		switch x := v.(type) {
+		case map[string]interface{}:
+			inResponses := len(path) >= 2 && path[len(path)-2] == "responses"
+			inInfo := len(path) == 1 && path[0] == "info"
+			inExtDocs := len(path) > 0 && path[len(path)-1] == "externalDocs"
+			inProps := len(path) > 0 && (path[len(path)-1] == "properties" || path[len(path)-1] == "definitions" || path[len(path)-1] == "example")
+			if !inProps && !inExtDocs {
+				if !inResponses {
+					delete(x, "description")
+				}
+				if !inInfo {
+					delete(x, "title")
+				}
+				delete(x, "summary")
+			}
+			for k, e := range x {
+				walk(e, append(append([]string{}, path...), k))
+			}
+		case []interface{}:
+			for i, e := range x {
+				walk(e, append(append([]string{}, path...), strconv.Itoa(i)))
+			}
+		}
+	}
+	walk(doc, nil)
+	b, _ := json.Marshal(doc)
+	return b
+}
+
+func pathExists(spec []byte, path []string) bool {
+	var cur interface{}
+	_ = json.Unmarshal(spec, &cur)
+	for _, k := range path {
+		switch c := cur.(type) {
+		case map[string]interface{}:
+			n, ok := c[k]
+			if !ok {
+				return false
+			}
+			cur = n
+		case []interface{}:
+			idx, err := strconv.Atoi(k)
+			if err != nil || idx >= len(c) {
+				return false
+			}
+			cur = c[idx]
+		default:
+			return false
+		}
+	}
+	_, isStr := cur.(string)
+	return isStr
+}
+
 func cmdInject(args []string) {
 	fs := flag.NewFlagSet("inject", flag.ExitOnError)
 	bin := fs.String("bin", "", "swagger binary built from /repo")
@@ -374,9 +436,39 @@ func cmdInject(args []string) {
 		}
 	}
 	type job struct {
-		p position
-		h hostile
+		p       position
+		h       hostile
+		variant int
 	}
+	// variant 1: the same document without its optional descriptive text (descriptions, summaries, titles of everything but the
+	// info object and the responses, where they are mandatory): templates that lay out a comment differently when there is no
+	// description are reached only then. The remaining free-text positions are visited by the comment-closing classes.
+	sparseSpec := string(sparseOf([]byte(baseSpec)))
+	var catalogueLeft []position
+	for _, p := range positions {
+		if !strings.HasPrefix(p.name, "auto:") && pathExists([]byte(sparseSpec), p.path) {
+			catalogueLeft = append(catalogueLeft, p)
+		}
+	}
+	sparsePositions := allPositions([]byte(sparseSpec), catalogueLeft)
+	for i := range sparsePositions {
+		sparsePositions[i].name = "sparse:" + sparsePositions[i].name
+	}
+	neutralSparse := render(*bin, filepath.Join(*work, "neutral-sparse"), []byte(sparseSpec), nil, nil)
+	for _, t := range targets {
+		if neutralSparse.exit[t.name] != 0 {
+			die("sparse neutral spec does not generate (%s): %s", t.name, neutralSparse.out[t.name])
+		}
+	}
+	allTargets := map[string]bool{}
+	for _, t := range targets {
+		allTargets[t.name] = true
+	}
+	for _, p := range sparsePositions {
+		rendersIn[p.name] = allTargets
+	}
+	specOf := []string{baseSpec, sparseSpec}
+	neutralOf := []rendering{neutral, neutralSparse}
 	var jobs []job
 	for _, p := range positions {
 		if *only != "" && p.name != *only {
@@ -386,7 +478,21 @@ func cmdInject(args []string) {
 			if *onlyClass != "" && h.class != *onlyClass {
 				continue
 			}
-			jobs = append(jobs, job{p, h})
+			jobs = append(jobs, job{p, h, 0})
+		}
+	}
+	for _, p := range sparsePositions {
+		if *only != "" && p.name != *only {
+			continue
+		}
+		for _, h := range hs {
+			if !strings.HasPrefix(h.class, "block-close") && (*tier != "thorough" || (h.class != "mixed-crlf" && h.class != "newline-code")) {
+				continue
+			}
+			if *onlyClass != "" && h.class != *onlyClass {
+				continue
+			}
+			jobs = append(jobs, job{p, h, 1})
 		}
 	}
 	var mu sync.Mutex
@@ -402,7 +508,8 @@ func cmdInject(args []string) {
 			defer wg.Done()
 			for j := range ch {
 				var doc interface{}
-				_ = json.Unmarshal([]byte(baseSpec), &doc)
+				_ = json.Unmarshal([]byte(specOf[j.variant]), &doc)
+				neutral := neutralOf[j.variant]
 				if !setPath(doc, j.p.path, j.h.text) {
 					die("position %s does not exist in the base document", j.p.name)
 				}
@@ -484,9 +591,9 @@ func cmdInject(args []string) {
 	}
 	rep := map[string]interface{}{
 		"evaluations": evals, "distinct_nontrivial": evals,
-		"rule":    "every free-text position of the catalogue (" + fmt.Sprint(len(positions)) + " positions) x every hostile string class; each case renders server, client and cli with the swagger binary built from /repo and compares the go/parser AST of every generated file (comments and literal values erased, constant string concatenations folded) with the neutral rendering. A generation error is accepted. Every case is distinct (position, class) and non-trivial (the hostile text is designed to leave its lexical context).",
+		"rule":    "every free-text position of the catalogue (" + fmt.Sprint(len(positions)) + " positions) x every hostile string class; each case renders server, client and cli with the swagger binary built from /repo and compares the go/parser AST of every generated file (comments and literal values erased, constant string concatenations folded) with the neutral rendering; plus the same document stripped of its optional descriptions, summaries and titles (" + fmt.Sprint(len(sparsePositions)) + " remaining positions x the comment-closing classes). A generation error is accepted. Every case is distinct (position, class) and non-trivial (the hostile text is designed to leave its lexical context).",
 		"samples": samples, "coverage": cov, "violations": viols, "generation_errors": genErrors,
-		"positions": len(positions), "classes": len(hs),
+		"positions": len(positions), "classes": len(hs), "sparse_positions": len(sparsePositions),
 	}
 	b, _ := json.MarshalIndent(rep, "", " ")
 	if err := os.WriteFile(*out, b, 0o644); err != nil {
